@@ -104,6 +104,9 @@ func (t *fnTrans) call(c *ssa.CallCommon, res ssa.Value, pos token.Pos) Val {
 		t.usedBenign[key] = true
 		return t.resultVal(resTy, "benign")
 	}
+	if c.StaticCallee() != nil && t.inlinable(fn) {
+		return t.inlineCall(fn, args, resTy)
+	}
 	// opaque
 	if key == "" {
 		key = "dynamic call at " + t.posStr(pos)
